@@ -11,6 +11,7 @@ package main
 import (
 	"fmt"
 	"go/types"
+	"strings"
 
 	"golang.org/x/tools/go/ssa"
 )
@@ -536,4 +537,147 @@ func typedNilRule(c *Ctx, pr *PropertyRun, prop string) {
 		})
 	}
 	r.RequireRole("pointer-result-as-error")
+}
+
+// timeEqualityRule: time.Time values are compared with Equal, never with ==
+// or !=: the operators also compare the monotonic reading and the *Location
+// pointer, so two values for the same instant (parsed twice, each with its
+// own LoadLocation result) are "different".
+func timeEqualityRule(c *Ctx, pr *PropertyRun, prop string) {
+	p := c.P
+	r := NewRule(prop, prop+".time-equality", "no == or != between time.Time values (they compare the location pointer too): instants are compared with Equal/Before/After (E4)")
+	pr.Rules = append(pr.Rules, r)
+	n := 0
+	for _, fn := range p.ModFns {
+		if !inLib(fn) || len(fn.Blocks) == 0 {
+			continue
+		}
+		eachInstr(fn, func(_ *ssa.BasicBlock, in ssa.Instruction) {
+			bo, ok := in.(*ssa.BinOp)
+			if !ok || (bo.Op.String() != "==" && bo.Op.String() != "!=") {
+				return
+			}
+			if !isTimeType(bo.X.Type()) && !isTimeType(bo.Y.Type()) {
+				return
+			}
+			n++
+			r.Role("time-comparison")
+			r.Ob(false)
+			r.Violation("time-operator|"+fnKey(fn), p.instrPos(bo), fnKey(fn)+" compares time.Time values with "+bo.Op.String()+": the operator also compares the location pointer, so the same instant obtained twice (two LoadLocation calls) counts as different; use Equal", nil)
+		})
+	}
+	r.Count("time_operator_comparisons", n)
+	if p.Control {
+		r.ExpectControl("time-operator|caldav.zzVerifControlTimeEq")
+	}
+}
+
+// redirectCodesRule: a redirect the library issues for a DAV request keeps
+// the method and the body: 307 or 308. On 301/302/303 HTTP clients re-send a
+// PROPFIND as a body-less GET, and discovery through the well-known URL ends
+// in the wrong handler.
+func redirectCodesRule(c *Ctx, pr *PropertyRun, prop string) {
+	p := c.P
+	r := NewRule(prop, prop+".redirect-codes", "every http.Redirect of the library uses 307 or 308 (method and body preserved): a PROPFIND redirected with 301/302 is re-sent as GET (E4)")
+	pr.Rules = append(pr.Rules, r)
+	for _, fn := range p.ModFns {
+		if !inLib(fn) || len(fn.Blocks) == 0 {
+			continue
+		}
+		eachCall(fn, func(site ssa.CallInstruction) {
+			if calleeName(site.Common()) != "net/http.Redirect" || len(site.Common().Args) < 4 {
+				return
+			}
+			r.Role("redirect")
+			code, isConst := constInt(site.Common().Args[3])
+			ok := isConst && (code == 307 || code == 308)
+			r.Ob(ok)
+			if !ok {
+				r.Violation("redirect-code|"+fnKey(fn), p.instrPos(site), fmt.Sprintf("%s redirects with status %d: only 307 and 308 make a client repeat the method and body; a PROPFIND or REPORT sent to the well-known URL is re-issued as a GET and discovery fails", fnKey(fn), code), nil)
+			}
+		})
+	}
+	r.RequireRole("redirect")
+}
+
+// tempPatternRule: the name pattern of a temporary file is a constant. A
+// pattern built from the request's own file name makes names near the file
+// system's length limit (255 bytes) impossible to store.
+func tempPatternRule(c *Ctx, pr *PropertyRun, prop string) {
+	p := c.P
+	r := NewRule(prop, prop+".temp-pattern", "the pattern of every os.CreateTemp/ioutil.TempFile in the library is a constant: a pattern that embeds the request's file name overflows the name-length limit for long legal names (E4)")
+	pr.Rules = append(pr.Rules, r)
+	for _, fn := range p.ModFns {
+		if !inLib(fn) || len(fn.Blocks) == 0 {
+			continue
+		}
+		eachCall(fn, func(site ssa.CallInstruction) {
+			n := calleeName(site.Common())
+			if n != "os.CreateTemp" && n != "io/ioutil.TempFile" {
+				return
+			}
+			r.Role("temp-file")
+			_, isConst := constString(site.Common().Args[1])
+			r.Ob(isConst)
+			if !isConst {
+				r.Violation("temp-pattern|"+fnKey(fn), p.instrPos(site), fnKey(fn)+" names a temporary file after a computed pattern: when the pattern embeds the target's own name, the random suffix pushes names close to the 255-byte limit over it and such resources can no longer be written", nil)
+			}
+		})
+	}
+	r.Note("expected count on the current tree: no temporary files; the firing of the rule is exercised by seed C05-18")
+}
+
+// locationAlwaysRule: the path under which the backend stored an object is
+// announced (Location) whenever the backend gave one — not only when it
+// differs from the request path: the client starts from the path its CALLER
+// passed, which is not the effective request path (relative names are joined
+// onto the endpoint), and has nothing else to correct it with.
+func locationAlwaysRule(c *Ctx, pr *PropertyRun, prop string) {
+	p := c.P
+	r := NewRule(prop, prop+".location-always", "the Location header of a PUT answer is written whenever the backend reported a path: its emission depends on no comparison of that path with another value (E4)")
+	pr.Rules = append(pr.Rules, r)
+	for _, fn := range p.ModFns {
+		if !inLib(fn) || len(fn.Blocks) == 0 {
+			continue
+		}
+		eachCall(fn, func(site ssa.CallInstruction) {
+			cc := site.Common()
+			n := calleeName(cc)
+			if (n != "(net/http.Header).Set" && n != "(net/http.Header).Add") || len(cc.Args) != 3 {
+				return
+			}
+			if k, ok := constString(cc.Args[1]); !ok || !strings.EqualFold(k, "Location") {
+				return
+			}
+			if p.isControlFn(fn) {
+				return
+			}
+			r.Role("location-emission")
+			bad := ""
+			b := site.Block()
+			for _, blk := range fn.Blocks {
+				iff, ok := blk.Instrs[len(blk.Instrs)-1].(*ssa.If)
+				if !ok || !(edgeDominates(blk, 0, b) || edgeDominates(blk, 1, b)) {
+					continue
+				}
+				bo, ok := iff.Cond.(*ssa.BinOp)
+				if !ok {
+					continue
+				}
+				_, cx := bo.X.(*ssa.Const)
+				_, cy := bo.Y.(*ssa.Const)
+				if cx || cy {
+					continue // a presence test, an error test
+				}
+				if bs, ok := bo.X.Type().Underlying().(*types.Basic); ok && bs.Info()&types.IsString != 0 {
+					bad = "a comparison of two strings (" + bo.Op.String() + ") at " + p.instrPos(iff)
+				}
+			}
+			r.Ob(bad == "")
+			if bad != "" {
+				r.Violation("location-conditional|"+fnKey(fn), p.instrPos(site), fmt.Sprintf("%s writes the Location header only under %s: when it is left out the client reports the path its caller passed, which is not the path the backend stored the object under (relative names are joined onto the endpoint)", fnKey(fn), bad), nil)
+			}
+		})
+	}
+	r.RequireRole("location-emission")
 }
